@@ -206,6 +206,11 @@ impl<'a> Packet<'a> {
 
     /// Write the contents of this package in wire format with enabled compression into the provided writer
     pub fn write_compressed_to<T: Write + Seek>(&self, out: &mut T) -> crate::Result<()> {
+        // compression pointers are offsets from the start of the message, which is not
+        // necessarily the start of the writer
+        let origin = out.stream_position()?;
+        let out = &mut MessageWriter { inner: out, origin };
+
         self.write_header(out)?;
 
         let mut name_refs = HashMap::new();
@@ -239,6 +244,35 @@ impl<'a> Packet<'a> {
             self.name_servers.len() as u16,
             self.additional_records.len() as u16 + u16::from(self.header.opt.is_some()),
         )
+    }
+}
+
+/// Writer whose positions are relative to the first byte of the message being written
+struct MessageWriter<'w, T> {
+    inner: &'w mut T,
+    origin: u64,
+}
+
+impl<T: Write> Write for MessageWriter<'_, T> {
+    fn write(&mut self, buf: &[u8]) -> std::io::Result<usize> {
+        self.inner.write(buf)
+    }
+
+    fn flush(&mut self) -> std::io::Result<()> {
+        self.inner.flush()
+    }
+}
+
+impl<T: Seek> Seek for MessageWriter<'_, T> {
+    fn seek(&mut self, pos: std::io::SeekFrom) -> std::io::Result<u64> {
+        let position = match pos {
+            std::io::SeekFrom::Start(offset) => {
+                self.inner.seek(std::io::SeekFrom::Start(self.origin + offset))?
+            }
+            pos => self.inner.seek(pos)?,
+        };
+
+        Ok(position.saturating_sub(self.origin))
     }
 }
 
